@@ -25,6 +25,18 @@ fn random_case(rng: &mut Rng, s: &str) -> String {
 }
 
 pub fn c04(rng: &mut Rng, tier: &str, idx: usize) -> Case {
+    if idx % 30 == 13 {
+        // more than 30 common ancestors, shortcuts to high ancestors, a term with > 10 parents
+        let mut c = Case::new("sim-trunk");
+        let f = gen_trunk(rng);
+        facts_to_prog(rng, &f, &ProgOpts { shuffle: true, failing_permille: 0, build_defaults: true, slot: 0 }, &mut c);
+        facts_stats(&f, &mut c);
+        for a in 0..8 {
+            c.op(format!("sim 0 {} {}", name(ALG_NAMES[a][0]), KINDS[rng.below(3) as usize]));
+        }
+        c.nontrivial = true;
+        return c;
+    }
     if idx % 60 == 29 {
         // information contents close to 0 (a term with all but one of > 10 000 records)
         let (mut c, _, k) = crate::props::big_records_case(rng, 2, tier == "thorough" && idx < 100);
